@@ -9,8 +9,10 @@ package props
 import (
 	"fmt"
 	"os"
+	"os/exec"
 	"path/filepath"
 	"strings"
+	"syscall"
 	"time"
 
 	"github.com/ErdemOzgen/blackdagger/internal/client"
@@ -30,6 +32,9 @@ type c08Shape struct {
 	Handler bool
 	Retry   bool // first step fails once and is retried
 	Output  bool
+	// SlowMs: the second step runs this long, so that it outlives its killed agent (an orphan
+	// in a process group of its own) while the checks after the kill are made
+	SlowMs int
 }
 
 func c08DagText(h *bdHome, self, marker string, sh c08Shape) string {
@@ -42,6 +47,9 @@ func c08DagText(h *bdHome, self, marker string, sh c08Shape) string {
 	b.WriteString("steps:\n")
 	for i := 1; i <= sh.Steps; i++ {
 		cmd := fmt.Sprintf("%s c16step %s s%d 120", self, marker, i)
+		if sh.SlowMs > 0 && i == 2 {
+			cmd = fmt.Sprintf("%s c16step %s s%d %d", self, marker, i, sh.SlowMs)
+		}
 		if sh.Retry && i == 1 {
 			gatef := filepath.Join(h.root, "retry-gate")
 			cmd = fmt.Sprintf("sh -c %s", yq(fmt.Sprintf("%s c16step %s s1 60; if test -e %s; then exit 0; else touch %s; exit 1; fi", self, marker, gatef, gatef)))
@@ -66,9 +74,9 @@ func c08CrashBody(c *core.Ctx) {
 		return
 	}
 	self, _ := os.Executable()
-	shapes := []c08Shape{{"3-steps+success-and-exit-handlers", 3, true, false, false}}
+	shapes := []c08Shape{{Name: "3-steps+success-and-exit-handlers", Steps: 3, Handler: true}}
 	if !c.Quick() {
-		shapes = append(shapes, c08Shape{"2-steps", 2, false, false, false}, c08Shape{"retry+handler", 2, true, true, false}, c08Shape{"output-variable", 2, true, false, true}, c08Shape{"1-step", 1, false, false, false})
+		shapes = append(shapes, c08Shape{Name: "2-steps", Steps: 2}, c08Shape{Name: "retry+handler", Steps: 2, Handler: true, Retry: true}, c08Shape{Name: "output-variable", Steps: 2, Handler: true, Output: true}, c08Shape{Name: "1-step", Steps: 1})
 	}
 	tears := []float64{0.5}
 	if !c.Quick() {
@@ -150,6 +158,16 @@ func c08CrashTrial(c *core.Ctx, idx int, self string, sh c08Shape, k int, tear f
 		return
 	}
 	c.Count("crash_kills", 1)
+	c08AfterKill(c, idx, self, sh, h, marker, loc, label, desc)
+	c.Sig("crash", sh.Name, k, tear)
+	if k%11 == 0 && tear == 0 {
+		c.Sample(desc)
+	}
+}
+
+// c08AfterKill: what the status query, the scheduler daemon and a new start make of a DAG
+// whose run's process has just been killed.
+func c08AfterKill(c *core.Ctx, idx int, self string, sh c08Shape, h *bdHome, marker, loc, label string, desc map[string]any) {
 	// what actually happened before the kill
 	ended := map[string]bool{}
 	for _, e := range readMarker(marker) {
@@ -247,13 +265,79 @@ func c08CrashTrial(c *core.Ctx, idx int, self string, sh c08Shape, k int, tear f
 	} else {
 		c.Count("crash_restarts_ok", 1)
 	}
-	c.Sig("crash", sh.Name, k, tear)
-	if k%11 == 0 && tear == 0 {
-		c.Sample(desc)
-	}
 }
 
 var _ = core.Sub
+
+// ---- orphan pass: the agent alone is killed, its running step lives on ------------------
+
+// A SIGKILL (OOM killer, kill -9) hits the agent process only; a step command runs in a
+// process group of its own and survives it.  The ptrace supervisor of the crash pass takes the
+// whole process tree down, so this pass kills the agent with a plain kill(2) while its second
+// step is executing, and then makes the same checks: status, daemon, new start.
+func c08OrphanBody(c *core.Ctx) {
+	self, _ := os.Executable()
+	shapes := []c08Shape{{Name: "orphan-step", Steps: 2, SlowMs: 2500}, {Name: "orphan-step+handlers", Steps: 2, Handler: true, SlowMs: 2500}, {Name: "orphan-step+output", Steps: 2, Output: true, SlowMs: 2500}}
+	delays := []int{0, 40, 400}
+	idx := 0
+	for _, sh := range shapes {
+		for _, delay := range delays {
+			if !c.Mine(idx) {
+				idx++
+				continue
+			}
+			desc := map[string]any{"shape": sh.Name, "agent_killed_ms_after_the_step_began": delay}
+			c.Begin(idx, desc)
+			func() {
+				h, err := newBDHome(c, "c08o-")
+				if err != nil {
+					c.Inconclusive(err.Error())
+					return
+				}
+				defer os.RemoveAll(h.root)
+				marker := filepath.Join(h.root, "marker.txt")
+				loc := filepath.Join(h.dags, "crash.yaml")
+				_ = os.WriteFile(loc, []byte(c08DagText(h, self, marker, sh)), 0644)
+				cmd := exec.Command(h.bin, "start", loc)
+				cmd.Env = h.env()
+				cmd.Dir = h.root
+				cmd.SysProcAttr = &syscall.SysProcAttr{Setpgid: true}
+				if err := cmd.Start(); err != nil {
+					c.Inconclusive("c08 orphan: " + err.Error())
+					return
+				}
+				waited := make(chan struct{})
+				go func() { _ = cmd.Wait(); close(waited) }()
+				began := false
+				for i := 0; i < 4000 && !began; i++ {
+					for _, e := range readMarker(marker) {
+						if e.Kind == "BEGIN" && e.Step == "s2" {
+							began = true
+						}
+					}
+					if !began {
+						time.Sleep(5 * time.Millisecond)
+					}
+				}
+				if !began {
+					_ = syscall.Kill(-cmd.Process.Pid, syscall.SIGKILL)
+					c.Inconclusive("c08 orphan: the second step never began")
+					return
+				}
+				time.Sleep(time.Duration(delay) * time.Millisecond)
+				_ = syscall.Kill(cmd.Process.Pid, syscall.SIGKILL) // the agent only
+				<-waited
+				c.Eval(1)
+				c.Count("orphan_kills", 1)
+				c08AfterKill(c, idx, self, sh, h, marker, loc, "orphan|"+sh.Name, desc)
+				c.Sig("orphan", sh.Name, delay)
+				c.Sample(desc)
+			}()
+			c.End(idx)
+			idx++
+		}
+	}
+}
 
 // ---- fault pass: a transient accept(2) failure on the run's status socket ---------------
 
@@ -379,7 +463,7 @@ func c10KilledBody(c *core.Ctx) {
 		return
 	}
 	self, _ := os.Executable()
-	sh := c08Shape{"3-steps+handlers", 3, true, false, false}
+	sh := c08Shape{Name: "3-steps+handlers", Steps: 3, Handler: true}
 	h0, err := newBDHome(c, "c10c-")
 	if err != nil {
 		c.Inconclusive(err.Error())
